@@ -83,8 +83,8 @@ impl<'a> Records<'a> {
                 let ttl = self.cursor.u32_be()?;
                 let rdlen = self.cursor.u16_be()? as usize;
 
-                if !rclass.is_defined() || !rtype.is_defined() {
-                    /* unsupported RCLASS or RTYPE */
+                if rtype == Type::OPT || !rclass.is_defined() || !rtype.is_defined() {
+                    /* OPT pseudo-record (its CLASS field is the UDP payload size), unsupported RCLASS or RTYPE */
                     self.cursor.skip(rdlen)?;
                     self.section_tracker
                         .section_read(section, self.cursor.pos());
